@@ -394,6 +394,7 @@ type TestScript struct {
 	stdinPty      bool              // connect pty to standard input; set by 'ttyin -stdin' command
 	ttyout        string            // terminal output; for 'ttyout' command
 	stopped       bool              // test wants to stop early
+	failed        bool              // a line has failed (the run continues only with ContinueOnError)
 	start         time.Time         // time phase started
 	background    []backgroundCmd   // backgrounded 'exec' and 'go' commands
 	deferred      func()            // deferred cleanup actions.
@@ -560,8 +561,6 @@ func (ts *TestScript) run() {
 		ts.start = time.Time{}
 	}
 
-	failed := false
-
 	// lastBlockFailed tracks the failure state of the last block.
 	// This allows us to rewind the last block if it didn't fail,
 	// but an earlier block _did_ fail, in the case of ContinueOnError.
@@ -574,7 +573,7 @@ func (ts *TestScript) run() {
 		for _, bg := range ts.background {
 			interruptProcess(bg.cmd.Process)
 		}
-		if ts.t.Verbose() || failed {
+		if ts.t.Verbose() || ts.failed {
 			// In verbose mode or on test failure, we want to see what happened in the background
 			// processes too.
 			ts.waitBackground(false)
@@ -646,7 +645,7 @@ func (ts *TestScript) run() {
 
 		ok := ts.runLine(line)
 		if !ok {
-			failed = true
+			ts.failed = true
 			lastBlockFailed = true
 			if ts.params.ContinueOnError {
 				verbose = true
@@ -678,7 +677,7 @@ func (ts *TestScript) run() {
 
 	// If we reached here but we've failed (probably because ContinueOnError
 	// was set), don't wipe the log and print "PASS".
-	if failed {
+	if ts.failed {
 		ts.t.FailNow()
 	}
 
